@@ -643,9 +643,14 @@ mod harnesses {
         Ok(Vec::new())
     }
 
+    fn stub_format(_args: core::fmt::Arguments<'_>) -> String {
+        String::new()
+    }
+
     /// Any other first character (any Unicode scalar value) at end of input: Err, no panic.
     #[kani::proof]
     #[kani::unwind(6)]
+    #[kani::stub(std::fmt::format, stub_format)]
     #[kani::stub(mamba::parse::lex::state::State::token, stub_state_token)]
     #[kani::stub(mamba::parse::lex::tokenize_direct, stub_tokenize_direct)]
     fn step_other_char() {
@@ -729,11 +734,14 @@ mod harnesses {
     /// The state described by `pre`; pending newline i sits at (PENDING_LINE + i, 1).
     pub fn mk_state(pre: &Pre) -> VerifState {
         let mut newlines: Vec<Lex> = Vec::with_capacity(MAX_PENDING + 1);
-        let mut i = 0;
-        while i < pre.k {
-            newlines.push(pending_nl(i));
-            i += 1;
+        // no loop here: with a symbolic k a loop costs minutes (measured), an if-chain does not
+        if pre.k >= 1 {
+            newlines.push(pending_nl(0));
         }
+        if pre.k >= 2 {
+            newlines.push(pending_nl(1));
+        }
+        assert!(pre.k <= 2 && MAX_PENDING == 2, "mk_state: if-chain matches MAX_PENDING");
         VerifState::verif_new(newlines, pre.c, pre.l, pre.ttl, pre.pos)
     }
 
@@ -844,41 +852,142 @@ mod harnesses {
         kani::cover!(res.len() == MAX_RES, "cover: longest result");
     }
 
-    /// All (cur_indent, line_indent, pending) of the bound x symbolic caret / flag: one
-    /// `State::token(mk())` each.
-    fn token_summary<F: Fn() -> Token>(mk: F, kind: K, w: usize) {
+    /// Content and order of what `State::token` returns, for one concrete cur_indent `c` and one
+    /// concrete number `k` of pending newlines: every line_indent of the bound (enumerated) x
+    /// symbolic caret / flag, one `State::token(mk())` from a fresh state each.
+    ///
+    /// Measured (per case ~90k symex steps, ~6 s, ~0.2 GB): all 13 x 13 x 3 cases in one harness
+    /// and 13 x 3 cases in one harness both ran out of 12 GB; 13 cases per harness fit.
+    /// These harnesses need `--cbmc-args --max-field-sensitivity-array-size 1024`: a Vec<Lex>
+    /// buffer is a byte array of 88 * capacity bytes, CBMC's default field sensitivity stops at
+    /// 64 elements, constants stop propagating through the buffer (e.g. the Option discriminant of
+    /// the popped newline), allocation sizes turn symbolic and one single case with k > 0 runs the
+    /// solver out of memory; with the option the same case takes 6 s.
+    fn order_summary<F: Fn() -> Token>(c: i32, k: usize, mk: F, kind: K, w: usize) {
         let (pos, ttl) = any_caret_and_flag();
-        let mut c: i32 = 1;
-        while c <= MAX_INDENT {
-            let mut l: i32 = 1;
-            while l <= MAX_INDENT {
-                let mut k: usize = 0;
-                while k <= MAX_PENDING {
-                    let pre = Pre { c, l, ttl, k, pos };
-                    let mut state = mk_state(&pre);
-                    let res = state.token(mk());
-                    check_token_post(&res, &state, &pre, kind, w);
-                    forget(res);
-                    forget(state);
-                    k += 1;
-                }
-                l += 1;
-            }
-            c += 1;
+        let mut l: i32 = 1;
+        while l <= MAX_INDENT {
+            let pre = Pre { c, l, ttl, k, pos };
+            let mut state = mk_state(&pre);
+            let res = state.token(mk());
+            check_token_post(&res, &state, &pre, kind, w);
+            forget(res);
+            forget(state);
+            l += 1;
         }
     }
 
-    #[kani::proof]
-    #[kani::unwind(15)]
-    fn state_token_pass() {
-        token_summary(|| Token::Pass, K::Pass, 4);
+    macro_rules! order_summaries {
+        ($( $c:literal : $k0:ident $k1:ident $k2:ident $comment:ident ; )*) => {
+            $(
+                #[kani::proof]
+                #[kani::unwind(15)]
+                fn $k0() {
+                    order_summary($c, 0, || Token::Pass, K::Pass, 4);
+                }
+
+                #[kani::proof]
+                #[kani::unwind(15)]
+                fn $k1() {
+                    order_summary($c, 1, || Token::Pass, K::Pass, 4);
+                }
+
+                #[kani::proof]
+                #[kani::unwind(15)]
+                fn $k2() {
+                    order_summary($c, 2, || Token::Pass, K::Pass, 4);
+                }
+
+                /// token with a payload; the order logic does not depend on the token, so only
+                /// the most general pending count (one popped + one remaining newline)
+                #[kani::proof]
+                #[kani::unwind(15)]
+                fn $comment() {
+                    order_summary($c, 2, || Token::Comment(String::from("c")), K::Comment, 2);
+                }
+            )*
+            /// the macro rows are exactly 1..=MAX_INDENT (checked in `state_token_pass`)
+            const ORDER_SUMMARY_ROWS: &[i32] = &[$($c),*];
+        };
     }
 
-    #[kani::proof]
-    #[kani::unwind(15)]
-    fn state_token_comment() {
-        token_summary(|| Token::Comment(String::from("c")), K::Comment, 2);
+    order_summaries! {
+        1  : state_order_pass_c01_k0 state_order_pass_c01_k1 state_order_pass_c01_k2 state_order_comment_c01;
+        2  : state_order_pass_c02_k0 state_order_pass_c02_k1 state_order_pass_c02_k2 state_order_comment_c02;
+        3  : state_order_pass_c03_k0 state_order_pass_c03_k1 state_order_pass_c03_k2 state_order_comment_c03;
+        4  : state_order_pass_c04_k0 state_order_pass_c04_k1 state_order_pass_c04_k2 state_order_comment_c04;
+        5  : state_order_pass_c05_k0 state_order_pass_c05_k1 state_order_pass_c05_k2 state_order_comment_c05;
+        6  : state_order_pass_c06_k0 state_order_pass_c06_k1 state_order_pass_c06_k2 state_order_comment_c06;
+        7  : state_order_pass_c07_k0 state_order_pass_c07_k1 state_order_pass_c07_k2 state_order_comment_c07;
+        8  : state_order_pass_c08_k0 state_order_pass_c08_k1 state_order_pass_c08_k2 state_order_comment_c08;
+        9  : state_order_pass_c09_k0 state_order_pass_c09_k1 state_order_pass_c09_k2 state_order_comment_c09;
+        10 : state_order_pass_c10_k0 state_order_pass_c10_k1 state_order_pass_c10_k2 state_order_comment_c10;
+        11 : state_order_pass_c11_k0 state_order_pass_c11_k1 state_order_pass_c11_k2 state_order_comment_c11;
+        12 : state_order_pass_c12_k0 state_order_pass_c12_k1 state_order_pass_c12_k2 state_order_comment_c12;
+        13 : state_order_pass_c13_k0 state_order_pass_c13_k1 state_order_pass_c13_k2 state_order_comment_c13;
     }
+
+    /// `State::token(Pass)` from a fully symbolic state (cur_indent, line_indent, pending, caret,
+    /// flag all symbolic): number of tokens returned and the state afterwards only - the arithmetic
+    /// of the level formula over the whole bound in one query. Content and order of the returned
+    /// tokens: `state_order_pass_cNN_kK`.
+    #[kani::proof]
+    #[kani::unwind(5)]
+    fn state_token_pass() {
+        assert!(
+            ORDER_SUMMARY_ROWS.len() == MAX_INDENT as usize
+                && ORDER_SUMMARY_ROWS[0] == 1
+                && ORDER_SUMMARY_ROWS[MAX_INDENT as usize - 1] == MAX_INDENT,
+            "state_order_* harnesses cover cur_indent 1..=MAX_INDENT"
+        );
+        let (mut state, pre) = any_state();
+        let res = state.token(Token::Pass);
+        check_token_len_and_state(&res, &state, &pre, 4);
+        forget(res);
+        forget(state);
+    }
+
+    /// Same for a token with a payload (`Comment("c")`, spelled `#c`, width 2).
+    #[kani::proof]
+    #[kani::unwind(5)]
+    fn state_token_comment() {
+        let (mut state, pre) = any_state();
+        let res = state.token(Token::Comment(String::from("c")));
+        check_token_len_and_state(&res, &state, &pre, 2);
+        forget(res);
+        forget(state);
+    }
+
+    fn check_token_len_and_state(res: &Vec<Lex>, state: &VerifState, pre: &Pre, w: usize) {
+        let up = pre.l >= pre.c;
+        let amount: usize = if up {
+            level(pre.l) - level(pre.c)
+        } else {
+            level(pre.c) - level(pre.l)
+        };
+        let extra_nl: usize = if up { 0 } else { 1 };
+        assert!(
+            res.len() == pre.k + amount + extra_nl + 1,
+            "token: number of tokens returned"
+        );
+        let (c2, l2, ttl2, pending2) = state.verif_view();
+        assert!(c2 == pre.l, "token: cur_indent becomes line_indent");
+        assert!(l2 == pre.l, "token: line_indent unchanged");
+        assert!(ttl2, "token: token_this_line set");
+        assert!(pending2 == 0, "token: pending newlines flushed");
+        assert!(
+            state.pos.line == pre.pos.line && state.pos.pos == pre.pos.pos + w,
+            "token: caret advanced by token width on the same line"
+        );
+        kani::cover!(pre.l > pre.c, "cover: l > c");
+        kani::cover!(pre.l < pre.c, "cover: l < c");
+        kani::cover!(pre.l == pre.c, "cover: l == c");
+        kani::cover!(pre.k == MAX_PENDING, "cover: k == 2");
+        kani::cover!(up && amount == D, "cover: D indents at once");
+        kani::cover!(!up && amount == D, "cover: D dedents at once");
+        kani::cover!(res.len() == MAX_RES, "cover: longest result");
+    }
+
 
     /// Symbolic state for the summaries that never read vector contents.
     pub fn any_state() -> (VerifState, Pre) {
